@@ -2,6 +2,16 @@ module verifharness
 
 go 1.21
 
-require shanhu.io/g v0.0.0
+require (
+	github.com/gorilla/websocket v1.5.1
+	shanhu.io/g v0.0.0
+)
+
+require (
+	golang.org/x/crypto v0.15.0 // indirect
+	golang.org/x/net v0.18.0 // indirect
+	golang.org/x/sys v0.14.0 // indirect
+	golang.org/x/term v0.14.0 // indirect
+)
 
 replace shanhu.io/g => /repo
